@@ -31,6 +31,9 @@ mod ports {
 }
 mod executor {
     pub(crate) mod task;
+    pub(crate) mod mt_executor {
+        pub(crate) mod injector;
+    }
 }
 
 mod seqops;
